@@ -185,6 +185,7 @@ type world struct {
 func installWorld() {
 	crlstore.VerifInstallStoreModels()
 	verifrt.InstallTempFiles()
+	verifrt.InstallSyncMap()
 	servers = map[string]*server{}
 	downloaded = map[string]*modelCRL{}
 	results = map[*crlreader.CRLReadResult]*modelCRL{}
